@@ -124,37 +124,8 @@ def f15_shaped(env):
     return (not G.oracle(env)["ok"]) and G.oracle(env, strict_head=False)["ok"]
 
 
-F20 = "F20"
-
-
-def top_mode(body_dump):
-    """mode of the first node of a dumped type"""
-    p = body_dump.lstrip("(").split(" ")
-    if p[0] in ("up", "dn"):
-        return p[2]
-    if p[0] == "N":
-        return p[2].rstrip(")")
-    return p[1].rstrip(")")
-
-
-def f20_shaped(env, obs):
-    """the recorded shape of F20: accepted although some definition is recorded with a mode that is not the
-    mode of its body, and the independent checker objects to nothing but conflicting modes"""
-    if vclass(obs) != "OK":
-        return False
-    if not any(line_modes(l)[1] != top_mode(line_modes(l)[2]) for l in type_lines(obs)):
-        return False
-    rs = G.oracle(env, strict_head=False)["reasons"]
-    return "mode-conflict" in rs and rs <= {"mode-conflict", "ref-mode", "mode-mismatch"}
-
-
 def known_ids(prop):
     return {k.get("id") for k in C.known_findings(prop)}
-
-
-def known_line_f20(prop, n, example):
-    return "%s a definition recorded with a mode that is not the mode of its body is accepted (alias inside a cycle of definitions " \
-           "with conflicting modes; %d generated environments of exactly this shape, e.g. `%s`)" % (F20, n, example.strip().replace("\n", " ; ")[:160])
 
 
 def f15_is_known(prop):
@@ -292,7 +263,7 @@ def known_lines(prop, *known_bys):
             tot[k] = (n0 + n, ex0)
     out = []
     for k, (n, ex) in sorted(tot.items()):
-        out.append(known_line(prop, n, ex) if k == F15 else known_line_f20(prop, n, ex))
+        out.append(known_line(prop, n, ex))
     return out, sum(n for n, _ in tot.values()), {k: n for k, (n, _) in tot.items()}
 
 
